@@ -26,6 +26,13 @@ def extCencDiagram (cenc : Nat) : List Field := [(8, HET_CENC), (8, cenc), (16, 
 def extTimeSctDiagram (ntpSeconds ntpFraction : Nat) : List Field :=
   [(8, HET_TIME), (8, 3), (1, 1), (1, 1), (1, 0), (1, 0), (4, 0), (8, 0), (32, ntpSeconds), (32, ntpFraction)]
 
+/-- EXT_TIME, general form (RFC 5651 §5.2.2): the Use flags SCT-High, SCT-Low, ERT, SLC (each 0 or 1), 4 bits reserved by
+    LCT, 8 PI-specific bits, then the time values that are present, 32 bits each, in the order SCT-High, SCT-Low, ERT,
+    SLC; HEL = 1 + number of time values -/
+def extTimeDiagram (hi lo ert slc resv pi : Nat) (vals : List Nat) : List Field :=
+  [(8, HET_TIME), (8, 1 + vals.length), (1, hi), (1, lo), (1, ert), (1, slc), (4, resv), (8, pi)]
+    ++ vals.map (fun v => (32, v))
+
 /-- decode an EXT_FDT extension (4 octets): `(version, instance id)` -/
 def decodeExtFdt (e : List Nat) : Option (Nat × Nat) :=
   if e.length = 4 ∧ bitsAt e 0 8 = HET_FDT then some (bitsAt e 8 4, bitsAt e 12 20) else none
